@@ -375,7 +375,7 @@ pub fn run(run: &mut Run) {
         ranges_case,
     );
     run.worker = keep;
-    let n = run.cases(30_000, 2_000_000);
+    let n = run.cases(150_000, 6_000_000);
     run.sub(
         "gate",
         "canonical handler addresses x setter programs (0..12 steps over set_present, disable_interrupts, set_privilege_level 0..=3, set_stack_index 0..=6, set_code_selector u16) on a generated vector >= 32; oracle: independent 16-byte gate decoder: after set_handler_addr offset = address, selector = current CS, type 0xE, DPL 0, P=1, IST 0, zero bits zero; each setter changes exactly its field (IST = index+1, type 0xE/0xF); handler_addr() unchanged; all other 255 entries and new()/missing()/reset() are non-present 0xE gates; non-trivial = program touching >= 3 different fields; distinct by (setter sequence, final fields)",
@@ -383,7 +383,7 @@ pub fn run(run: &mut Run) {
         (canon_va(), proptest::collection::vec(setter(), 0..12), any::<u8>()),
         gate_case,
     );
-    let n = run.cases(5_000, 200_000);
+    let n = run.cases(20_000, 800_000);
     run.sub(
         "typed_fields",
         "set_handler_addr on the typed exception fields (divide_error, double_fault, invalid_tss, general_protection_fault, page_fault, machine_check, cp_protection_exception, security_exception): the entry at 16*vector decodes to the gate; non-trivial = upper-half address",
